@@ -7,6 +7,8 @@ REL={'C01':['C01','C03','C07'],'C02':['C02','C04','C08'],'C03':['C03'],'C04':['C
 allnames=sorted(d for d in os.listdir(f'{ROOT}/seeded') if os.path.isdir(f'{ROOT}/seeded/{d}'))
 names=allnames
 if len(sys.argv)>1: names=[n for n in names if n in sys.argv[1:]]
+os.environ['VERIF_OUT_DIR']='/tmp/seedreport-out'   # evidence/replays of runs against a patched /repo never land in /verif
+os.makedirs('/tmp/seedreport-out',exist_ok=True)
 def sh(*a, **k): return subprocess.run(a, capture_output=True, text=True, **k)
 assert sh('git','-C','/repo','diff','--quiet').returncode==0, 'repo dirty'
 rev=sh('git','-C','/repo','rev-parse','--short=8','HEAD').stdout.strip()
